@@ -42,6 +42,10 @@ struct Svc;
 fn plan_of(qname: &[u8]) -> (char, usize) {
     let first = w::labels(qname).first().map(|l| l.to_vec()).unwrap_or_default();
     let s = String::from_utf8_lossy(&first).to_lowercase();
+    // (a long transaction needs the whole word: a damaged request must not ask for one by accident)
+    if let Some(rest) = s.strip_prefix("longtransaction") {
+        return ('L', rest.chars().take_while(|c| c.is_ascii_digit()).collect::<String>().parse().unwrap_or(1));
+    }
     let kind = s.chars().next().unwrap_or('s');
     let n: usize = s.chars().skip(1).take_while(|c| c.is_ascii_digit()).collect::<String>().parse().unwrap_or(1);
     (kind, n)
@@ -89,6 +93,14 @@ impl Service<Vec<u8>, ()> for Svc {
                     use domain::net::server::service::ServiceFeedback;
                     let mut v = vec![Ok(CallResult::feedback_only(ServiceFeedback::BeginTransaction))];
                     v.extend((0..n.clamp(1, 40)).map(|i| build_response(&req, 1, i)));
+                    v.push(Ok(CallResult::feedback_only(ServiceFeedback::EndTransaction)));
+                    v
+                }
+                // a long transaction (a zone transfer's worth of messages)
+                'L' => {
+                    use domain::net::server::service::ServiceFeedback;
+                    let mut v = vec![Ok(CallResult::feedback_only(ServiceFeedback::BeginTransaction))];
+                    v.extend((0..n.clamp(1, 5000)).map(|i| build_response(&req, 1, i)));
                     v.push(Ok(CallResult::feedback_only(ServiceFeedback::EndTransaction)));
                     v
                 }
@@ -982,6 +994,112 @@ fn churn_case(c: &mut Ctx, fam: &str, idx: u64) {
     c.count("churn_cases", 1);
 }
 
+
+// ------------------------------------------------- real threads, real time ----
+
+/// Several long transactions at once on one connection, the server on a multi-thread runtime: the
+/// tasks that produce the responses compete for the connection's response queue while the
+/// requester drains it slowly. Every message of every transaction arrives exactly once and in
+/// its transaction's order (responses inside an announced transaction are never dropped).
+fn stream_threads_case(c: &mut Ctx, fam: &str, idx: u64) {
+    let mut rng = c.case_rng(fam, idx);
+    let nreq = rng.range(6, 16);
+    let per = rng.range(300, 1200);
+    let workers = *rng.pick(&[4usize, 8, 12]);
+    let pipe = *rng.pick(&[1usize << 12, 1 << 14, 1 << 16]);
+    let reqs: Vec<Req> = (0..nreq).map(|j| mk_req(1000 + j as u16, &format!("longtransaction{}", per), 3000 + j, None)).collect();
+    let ex = json!({"requests": nreq, "messages_per_transaction": per, "worker_threads": workers, "pipe": pipe});
+    let rt = tokio::runtime::Builder::new_multi_thread().worker_threads(workers).enable_all().build().unwrap();
+    let reqs2 = reqs.clone();
+    let _ = ctx::take_any_panic();
+    let res = ctx::catch(|| {
+        rt.block_on(async move {
+            let (tx, rx) = mpsc::unbounded_channel();
+            let srv = Arc::new(StreamServer::with_config(MockListener { rx: Mutex::new(rx) }, VecBufSource, stack(false), stream::Config::new()));
+            let s2 = srv.clone();
+            let h = tokio::spawn(async move { s2.run().await });
+            let (mut client, server) = tokio::io::duplex(pipe);
+            let _ = tx.send((server, "203.0.113.5:45000".parse().unwrap()));
+            let mut bytes = Vec::new();
+            for r in &reqs2 {
+                bytes.extend_from_slice(&(r.wire.len() as u16).to_be_bytes());
+                bytes.extend_from_slice(&r.wire);
+            }
+            let _ = client.write_all(&bytes).await;
+            let want_frames = reqs2.len() * per;
+            let mut frames: Vec<Vec<u8>> = Vec::new();
+            let mut buf: Vec<u8> = Vec::new();
+            let mut tmp = vec![0u8; 16384];
+            let mut p = 0usize;
+            while frames.len() < want_frames {
+                match tokio::time::timeout(Duration::from_secs(8), client.read(&mut tmp)).await {
+                    Ok(Ok(n)) if n > 0 => buf.extend_from_slice(&tmp[..n]),
+                    _ => break,
+                }
+                while p + 2 <= buf.len() {
+                    let l = u16::from_be_bytes([buf[p], buf[p + 1]]) as usize;
+                    if p + 2 + l > buf.len() {
+                        break;
+                    }
+                    frames.push(buf[p + 2..p + 2 + l].to_vec());
+                    p += 2 + l;
+                }
+                if frames.len() % 64 == 0 {
+                    tokio::task::yield_now().await;
+                }
+            }
+            let alive = !h.is_finished();
+            drop(client);
+            let _ = srv.shutdown();
+            let _ = tokio::time::timeout(Duration::from_secs(5), h).await;
+            (frames, alive)
+        })
+    });
+    drop(rt);
+    let (frames, alive) = match res {
+        Ok(x) => x,
+        Err(pi) => {
+            c.violation(&format!("panic:{}", pi.site()), &format!("panic in the stream server (threads): {} at {}:{}", pi.msg, pi.file, pi.line), c.replay_of(fam, idx, ex));
+            return;
+        }
+    };
+    if let Some(pi) = ctx::take_any_panic() {
+        c.violation(&format!("panic:{}", pi.site()), &format!("a task of the stream server panicked: {} at {}:{}", pi.msg, pi.file, pi.line), c.replay_of(fam, idx, ex));
+        return;
+    }
+    if !alive {
+        c.violation("stream-server-stopped", "the stream server's run() returned while a connection was being served", c.replay_of(fam, idx, ex));
+        return;
+    }
+    // per request: the messages of its transaction, in order
+    let mut next: Vec<usize> = vec![0; reqs.len()];
+    for f in &frames {
+        let Ok(pm) = w::parse_message(f) else {
+            c.violation("stream-response-unparsable", "a frame of a transaction is not a DNS message", c.replay_of(fam, idx, ex));
+            return;
+        };
+        let Some(i) = reqs.iter().position(|r| r.id == pm.id && pm.questions.len() == 1 && w::lower(&pm.questions[0].name) == w::lower(&r.qname)) else {
+            c.violation("stream-response-not-for-any-request", "a response with an ID and question none of the requests has", c.replay_of(fam, idx, ex));
+            return;
+        };
+        let ok = pm.records.iter().find(|x| x.section == 1).map(|x| x.rdata.as_ref().map(|d| d.len() == 41 && d[1] == b'a' + (next[i] % 26) as u8).unwrap_or(false)).unwrap_or(false);
+        if !ok {
+            // a message out of place: one before it was lost, or two changed places
+            c.violation("stream-threads:transaction-message-lost-or-out-of-order", &format!("{} transactions of {} messages each at once on one connection ({} worker threads): message {} of transaction {} is not the one the service produced at that place", reqs.len(), per, workers, next[i], i), c.replay_of(fam, idx, ex));
+            return;
+        }
+        next[i] += 1;
+    }
+    if let Some(i) = next.iter().position(|n| *n != per) {
+        c.violation("stream-threads:transaction-messages-missing", &format!("{} transactions of {} messages each at once on one connection ({} worker threads): transaction {} delivered {} messages", reqs.len(), per, workers, i, next[i]), c.replay_of(fam, idx, ex));
+        return;
+    }
+    c.count("stream_threads_cases", 1);
+    c.count("stream_threads_transaction_messages", frames.len() as u64);
+    c.evals_n(frames.len() as u64);
+    c.sig(&("stream-threads", nreq, per / 200, workers));
+}
+
 /// A service that says it is EDNS aware in every response, whatever the request looked like.
 #[derive(Clone)]
 struct OptSvc;
@@ -1109,7 +1227,20 @@ fn udp_bare_case(c: &mut Ctx, fam: &str, idx: u64) {
 }
 
 pub fn run(c: &mut Ctx) {
-    c.families(4);
+    c.families(5);
+    // real threads: a handful of cases per run (all there is to the ThreadSanitizer stage)
+    let fam = "stream-threads";
+    let total = if c.mode == "tsan" { c.total(8, 64) } else { c.total(16, 400) };
+    for idx in c.cases(fam, total) {
+        if c.out_of_time() {
+            break;
+        }
+        ctx::slot_write(idx, &format!("{}|case", fam), &[]);
+        stream_threads_case(c, fam, idx);
+    }
+    if c.mode == "tsan" {
+        return;
+    }
     let fam = "stream-churn";
     let total = c.total(3_000, 100_000);
     for idx in c.cases(fam, total) {
@@ -1147,7 +1278,7 @@ pub fn run(c: &mut Ctx) {
         stream_case(c, fam, idx);
     }
     if !c.replaying() {
-        for k in ["udp_cases", "udp_complete_answers", "udp_truncated_answers", "udp_hostile_requests", "udp_service_failures_answered", "stream_cases", "stream_connections_checked", "stream_multi_responses", "stream_aborted_connections", "udp_bare_no_edns_truncated", "udp_bare_no_edns_complete", "stream_slow_readers_served", "udp_readiness_without_datagram", "churn_cases", "churn_connections:failed-handshake", "churn_connections:aborted", "churn_connections:idled-out"] {
+        for k in ["udp_cases", "udp_complete_answers", "udp_truncated_answers", "udp_hostile_requests", "udp_service_failures_answered", "stream_cases", "stream_connections_checked", "stream_multi_responses", "stream_aborted_connections", "udp_bare_no_edns_truncated", "udp_bare_no_edns_complete", "stream_slow_readers_served", "stream_threads_cases", "udp_readiness_without_datagram", "churn_cases", "churn_connections:failed-handshake", "churn_connections:aborted", "churn_connections:idled-out"] {
             c.floor(k, 3);
         }
     }
